@@ -52,7 +52,8 @@ def plan(tier, seed):
                           hashseed=k))
     meta = dict(
         rule=RULE,
-        require=['history_view_checks', 'gc_freed_nodes', 'traversals', 'descendants_checks', 'nx_graphs',
+        require=['history_view_checks', 'long_lived_handle_checks',
+                 'gc_freed_nodes', 'traversals', 'descendants_checks', 'nx_graphs',
                  'dot_files', 'dot_roots_evaluated', 'nx_roots_evaluated'],
         assumptions=['truth-table model in vf/oracle.py',
                      'DOT legend as documented in doc.md (solid = then, '
@@ -409,6 +410,26 @@ def all_(ctx, spec):
                     functions=len(A.tables), root_sets=spec['sets']))
 
 
+def check_handles(ctx, w, V):
+    sp, raw = w.sp, w.raw
+    for e in w.pool:
+        f = e.h
+        info = dict(node=int(f), table=sp.fmt(e.tt))
+        if denote_function(f, sp, dict()) != e.tt:
+            raise Violation('Function.low/high',
+                            'long-lived-handle-traverses-to-other-function',
+                            info)
+        if abs(int(f)) != 1:
+            lvl = raw._succ[abs(int(f))][0]
+            if f.level != lvl or f.var != raw.var_at_level(lvl):
+                raise Violation('Function.var', 'stale-label',
+                                dict(info, var=f.var, level=f.level,
+                                     stored_level=lvl))
+            if f.dag_size != len(monitors.reachable(raw, [int(f)])):
+                raise Violation('Function.dag_size', 'wrong-size', info)
+        ctx.counters['long_lived_handle_checks'] += 1
+
+
 def history(ctx, spec):
     """The same views of the references held by a manager with a history
     (node numbers freed and re-used, nodes relabelled in place by swaps,
@@ -454,6 +475,17 @@ def history(ctx, spec):
                                               for d in w.log[-6:]]))
             es = None
             ctx.counters['history_view_checks'] += 1
+            if kind == 'autoref':
+                # the long-lived handles themselves (objects that were
+                # created, and read, before reorderings relabelled their
+                # nodes in place)
+                ok, _ = ctx.guard('views', check_handles, ctx, w, V,
+                                  case=dict(spec=spec, step=k,
+                                            order=V.order,
+                                            tail=[list(map(str, d))
+                                                  for d in w.log[-6:]]))
+                if not ok:
+                    return
             ctx.case(any(abs(r) != 1 for r in roots), 'history', spec['sub'],
                      w.state_hash(), tuple(roots))
             if not ok:
